@@ -212,6 +212,22 @@ impl PackageInterface {
             fn_bounds,
         }
     }
+
+    /// The bounds of methods are recorded under the names the type checker looks them up by
+    /// (`impl <type>::<method>`, known once the package is typed), so that a dependent can check
+    /// them where it calls the method.
+    pub fn with_method_bounds_of(
+        mut self,
+        typed: &IndexMap<String, Vec<(String, Vec<String>)>>,
+    ) -> Self {
+        self.fn_bounds.retain(|name, _| !name.starts_with("impl#"));
+        for (name, bounds) in typed.iter() {
+            if name.starts_with("impl ") {
+                self.fn_bounds.insert(name.clone(), bounds.clone());
+            }
+        }
+        self
+    }
 }
 
 pub fn lower_to_hir_files(files: Vec<SourceFileAst>) -> (PackageHir, HirTable, Diagnostics) {
